@@ -10,8 +10,8 @@ import val
 
 ID = "C14"
 LEVEL = "exploration"
-FLAVOURS = ["asan"]
-TARGETS = ["valtool"]
+FLAVOURS = ["asan", "rel"]
+TARGETS = ["valtool", "bsx"]
 RULE = ("Two generated families over a path alphabet built for trouble (components from {a, ab, b, foo, foobar, "
         "'..', '.'}, optional leading '/', trailing '/', doubled '//', empty string, relative). pairs: (path, root) "
         "straight into the exported pathIsPrefixedByPath, judged by a three-valued component-wise reference "
@@ -30,7 +30,7 @@ COMPS = ["a", "ab", "b", "foo", "foobar", "..", "."]
 
 
 def budget(tier):
-    return 200000 if tier == "quick" else 5000000
+    return 40000 if tier == "quick" else 1000000
 
 
 @st.composite
@@ -72,8 +72,28 @@ def related_pair(draw):
     return {"kind": "pair", "path": p, "root": root}
 
 
+_HPATHS = ["/r1/a", "/r1/ab", "/r1/a/b", "/r1foo/x", "/r1/", "/r1", "/r2/foo", "/r2/foo/bar", "/r2/foobar", "/x",
+           "rel/a", "a", "", "/r1//a", "/r1/../x", "/"]
+_HROOTS = ["/r1", "/r1/", "/r2/foo", "/r2/foo/", "/r1/a", "/", "/r1//", "/nowhere", "r1"]
+
+
+@st.composite
+def history(draw):
+    n = draw(st.integers(2, 5))
+    lists = [draw(st.lists(st.sampled_from(_HPATHS), min_size=0, max_size=6)) for _ in range(n)]
+    # make paths leave and re-enter
+    if n >= 3 and lists[0] and draw(st.booleans()):
+        lists[2] = lists[2] + [lists[0][0]]
+    roots = draw(st.lists(st.sampled_from(_HROOTS), min_size=1, max_size=3)) if draw(st.integers(0, 2)) else None
+    change_roots = None
+    if roots is not None and draw(st.integers(0, 3)) == 0:
+        change_roots = draw(st.lists(st.sampled_from(_HROOTS), min_size=1, max_size=2))
+    return {"kind": "history", "lists": lists, "roots": roots, "roots2": change_roots,
+            "jobs": draw(st.sampled_from([None, 4]))}
+
+
 def strategy(tier):
-    return related_pair()
+    return st.one_of(*([related_pair()] * 9 + [history()]))
 
 
 def must(path, root):
@@ -123,4 +143,56 @@ def run_case(case, ctx, verbose=False):
             return Outcome("pathIsPrefixedByPath(%r, %r) = true, but %r is outside root %r" % (p, r, p, r),
                            nontrivial=nt, classes=cls)
         return Outcome(None, nontrivial=nt, classes=cls)
+    if case["kind"] == "history":
+        import bs_model as bm
+        ws = bm.Workspace(ctx)
+        try:
+            prev = None
+            cls = ["history"] + (["roots"] if case["roots"] is not None else ["no-roots"])
+            reenter = False
+            seen_removed = set()
+            for i, cur in enumerate(case["lists"]):
+                roots = case["roots"]
+                if case.get("roots2") is not None and i >= 2:
+                    roots = case["roots2"]
+                cmd = {"name": "SFR", "tool": "stale-file-removal", "expected": cur, "outputs": ["<sfr>"]}
+                if roots is not None:
+                    cmd["roots"] = roots
+                desc = {"commands": [cmd], "targets": {"t": ["<sfr>"]}, "default": "t"}
+                bm.write_description(ws, desc)
+                r = ws.build(target="t", pretend=True, jobs=case["jobs"])
+                if r.timed_out or r.crashed():
+                    return Outcome("build %d crashed/hung rc=%s %s" % (i + 1, r.rc, r.stderr[-400:]), classes=cls)
+                if not r.ok:
+                    return Outcome("build %d failed: %s" % (i + 1, r.stderr[-300:]), classes=cls)
+                removed = [bm.unhx(e[1]) for e in r.events if e[0] == "remove"]
+                if len(removed) != len(set(removed)):
+                    return Outcome("build %d removed a path twice: %s" % (i + 1, removed), classes=cls)
+                removed = set(removed)
+                cand = set(prev or []) - set(cur)
+                if not removed <= cand:
+                    return Outcome("build %d removed %s which %s (previous list %s, current list %s)" % (
+                        i + 1, sorted(removed - cand),
+                        "was not listed by the previous successful run or is still expected", prev, cur), classes=cls)
+                for pth in cand:
+                    if roots is None:
+                        want = "must"
+                    elif pth == "" or not pth.startswith("/"):
+                        want = "mustnot"
+                    else:
+                        vs = [verdict(pth, rt) for rt in roots]
+                        want = "must" if "must" in vs else "mustnot" if all(v == "mustnot" for v in vs) else "dontcare"
+                    if want == "must" and pth not in removed:
+                        return Outcome("build %d: stale path %r (previous %s, current %s, roots %s) was not removed" % (
+                            i + 1, pth, prev, cur, roots), classes=cls)
+                    if want == "mustnot" and pth in removed:
+                        return Outcome("build %d: path %r lies outside the roots %s (or is relative) but was removed" % (
+                            i + 1, pth, roots), classes=cls)
+                if removed & set(case["lists"][0]) and i >= 2:
+                    reenter = True
+                prev = cur
+            nt = len(case["lists"]) >= 3
+            return Outcome(None, nontrivial=nt, classes=cls)
+        finally:
+            ws.cleanup()
     raise common.HarnessError("unknown kind")
